@@ -321,9 +321,13 @@ def obligations(tier, seed):
         for w in range(3, n + 1, 2):
             obs.append(ob_median_width(n, w))
     obs.append(ob_median_2d(3, 3, 3))
+    obs.append(ob_median_2d(3, 5, 3))        # non-square, both ways: the edge rule uses each axis' own length
+    obs.append(ob_median_2d(5, 3, 3))
     if tier != 'quick':
         obs.append(ob_median_2d(3, 4, 3))
         obs.append(ob_median_2d(4, 3, 3))
+        obs.append(ob_median_2d(4, 6, 3))
+        obs.append(ob_median_2d(5, 5, 5))
     NU = 5 if tier == 'quick' else 7
     for n in range(1, NU + 1):
         obs.append(ob_uniq_sorted(n, 'real'))
